@@ -38,16 +38,35 @@ Definition dreq_of (c : creq) : dreq hstore :=
 (* an observed transmission: the tag of the request during whose execute() it happened *)
 Record oout := { oo_for : Z; oo_out : out }.
 
+(* one step of a history on a live server object: a request the framer delivered, or an edit of the
+   hosted set made by the application between two reads (`del context[u]`, `context[u] = <new slave>`) *)
+Inductive event := EvReq (c : creq) | EvDel (u : Z) | EvSet (u : Z).
+
 Record scase := {
   k_fe : string;                   (* front-end name, key into GenServer.frontends *)
   k_cfg : scfg;
-  k_hosted : list Z;               (* context.slaves() *)
-  k_reqs : list creq;              (* delivered, in order *)
+  k_hosted : list Z;               (* the hosted ids at the start, in dict order *)
+  k_evs : list event;              (* delivered requests and hosted-set edits, in real order *)
   k_outs : list oout;              (* sent, in order *)
-  k_logs : list (Z * list Z);      (* per hosted unit: tags executed on it *)
-  k_changed : list Z;              (* units whose table dump differs before/after *)
+  k_logs : list (Z * list Z);      (* per unit hosted AT THE END (dict order): tags executed on that slave object *)
+  k_changed : list Z;              (* units hosted at the end whose table dump differs from the one at their creation *)
   k_escaped : bool                 (* an exception escaped the callback *)
 }.
+
+Definition k_reqs (k : scase) : list creq :=
+  flat_map (fun e => match e with EvReq c => [c] | _ => [] end) (k_evs k).
+
+(* Python dict: `del d[k]` keeps the order of the rest; `d[k] = v` replaces in place or appends *)
+Fixpoint a_del {A} (l : list (Z * A)) (k : Z) : list (Z * A) :=
+  match l with
+  | [] => []
+  | (k', v) :: t => if k' =? k then t else (k', v) :: a_del t k
+  end.
+Fixpoint a_put {A} (l : list (Z * A)) (k : Z) (v : A) : list (Z * A) :=
+  match l with
+  | [] => [(k, v)]
+  | (k', v') :: t => if k' =? k then (k', v) :: t else (k', v') :: a_put t k v
+  end.
 
 Definition optz_eqb := option_eqb Z.eqb.
 
@@ -67,12 +86,33 @@ Section WithCode.
 Variable C : server_code.
 Variable FES : list (string * skel).
 
+(* the model over a history: every maximal run of requests goes through [Server.serve]; an edit changes the
+   hosted association list the way the dict is changed (a fresh slave context has an empty log) *)
+Fixpoint run_events (sk : skel) (cfg : scfg) (l : units hstore) (pending : list creq) (evs : list event)
+  : units hstore * list out * option pyexn :=
+  match evs with
+  | [] => serve hstore C sk cfg l (map dreq_of (rev pending))
+  | EvReq c :: t => run_events sk cfg l (c :: pending) t
+  | e :: t =>
+      let '(l1, o1, e1) := serve hstore C sk cfg l (map dreq_of (rev pending)) in
+      match e1 with
+      | Some x => (l1, o1, Some x)
+      | None =>
+          let l1' := match e with
+                     | EvDel u => a_del l1 u
+                     | EvSet u => a_put l1 u (u, @nil Z)
+                     | EvReq _ => l1
+                     end in
+          let '(l2, o2, e2) := run_events sk cfg l1' [] t in (l2, o1 ++ o2, e2)
+      end
+  end.
+
 Definition model_agrees (k : scase) : bool :=
   match assoc_s FES (k_fe k) with
   | None => false
   | Some sk =>
       let l0 := map (fun u => (u, (u, @nil Z))) (k_hosted k) in
-      let '(l1, outs, exn) := serve hstore C sk (k_cfg k) l0 (map dreq_of (k_reqs k)) in
+      let '(l1, outs, exn) := run_events sk (k_cfg k) l0 [] (k_evs k) in
       list_eqb out_eqb outs (map oo_out (k_outs k)) &&
       list_eqb log_eqb (map snd l1) (k_logs k) &&
       Bool.eqb (match exn with Some _ => true | None => false end) (k_escaped k)
@@ -118,13 +158,26 @@ Fixpoint nondecreasing (l : list Z) : bool :=
 Definition outs_for (k : scase) (c : creq) : list out :=
   map oo_out (filter (fun o => oo_for o =? c_tag c) (k_outs k)).
 
+(* the ids hosted when each request arrives: the routing table of the property text on the CURRENT hosted set *)
+Fixpoint keys_del (l : list Z) (k : Z) : list Z :=
+  match l with [] => [] | a :: t => if a =? k then t else a :: keys_del t k end.
+Definition keys_put (l : list Z) (k : Z) : list Z := if zmem k l then l else l ++ [k].
+
+Fixpoint with_hosted (hs : list Z) (evs : list event) : list (list Z * creq) :=
+  match evs with
+  | [] => []
+  | EvReq c :: t => (hs, c) :: with_hosted hs t
+  | EvDel u :: t => with_hosted (keys_del hs u) t
+  | EvSet u :: t => with_hosted (keys_put hs u) t
+  end.
+
 Definition prop_c09 (k : scase) : bool :=
   (* nothing spontaneous: every transmission happened while executing a delivered request *)
   forallb (fun o => existsb (fun c => c_tag c =? oo_for o) (k_reqs k)) (k_outs k) &&
   (* request order *)
   nondecreasing (map oo_for (k_outs k)) &&
-  (* exactly one / none, echoing *)
-  forallb (fun c => c09_req (k_cfg k) (k_hosted k) c (outs_for k c)) (k_reqs k).
+  (* exactly one / none, echoing — judged on the hosted set at the time of the request *)
+  forallb (fun hc => c09_req (k_cfg k) (fst hc) (snd hc) (outs_for k (snd hc))) (with_hosted (k_hosted k) (k_evs k)).
 
 (* C10: which units execute a delivered request *)
 Definition addressed (cfg : scfg) (u : Z) (c : creq) : bool :=
@@ -132,22 +185,35 @@ Definition addressed (cfg : scfg) (u : Z) (c : creq) : bool :=
   else if is_bcast cfg c then true
   else c_uid c =? u.
 
-Definition spec_log (k : scase) (u : Z) : list Z :=
-  map c_tag (filter (addressed (k_cfg k) u) (k_reqs k)).
+(* spec routing over a history: per hosted slave object the tags it must have executed.  A request goes to the
+   unit it addresses (all units on broadcast, the one context in single mode) among the units hosted WHEN IT
+   ARRIVES; a deleted unit disappears with its log; a (re-)registered unit starts with an empty one. *)
+Fixpoint spec_logs (cfg : scfg) (hl : list (Z * list Z)) (evs : list event) : list (Z * list Z) :=
+  match evs with
+  | [] => hl
+  | EvReq c :: t =>
+      spec_logs cfg (map (fun ul => if addressed cfg (fst ul) c then (fst ul, snd ul ++ [c_tag c]) else ul) hl) t
+  | EvDel u :: t => spec_logs cfg (a_del hl u) t
+  | EvSet u :: t => spec_logs cfg (a_put hl u []) t
+  end.
+
+Definition spec_final (k : scase) : list (Z * list Z) :=
+  spec_logs (k_cfg k) (map (fun u => (u, @nil Z)) (k_hosted k)) (k_evs k).
 
 Definition prop_c10 (k : scase) : bool :=
   (* every hosted unit executed exactly the requests addressed to it (or broadcast), once each, in order *)
-  list_eqb log_eqb (map (fun u => (u, spec_log k u)) (k_hosted k)) (k_logs k) &&
+  list_eqb log_eqb (spec_final k) (k_logs k) &&
   (* tables of a unit nobody addressed are untouched *)
-  forallb (fun u => match spec_log k u with [] => false | _ => true end) (k_changed k) &&
-  (* absent unit: no answer or a gateway exception *)
-  forallb (fun c => if is_missing (k_cfg k) (k_hosted k) c && negb (is_bcast (k_cfg k) c)
+  forallb (fun u => match assoc (spec_final k) u with Some (_ :: _) => true | _ => false end) (k_changed k) &&
+  (* absent unit (at the time of the request): no answer or a gateway exception *)
+  forallb (fun hc => let c := snd hc in
+                    if is_missing (k_cfg k) (fst hc) c && negb (is_bcast (k_cfg k) c)
                     then match outs_for k c with
                          | [] => true
                          | [o] => gateway_exc c o
                          | _ => false
                          end
-                    else true) (k_reqs k) &&
+                    else true) (with_hosted (k_hosted k) (k_evs k)) &&
   (* broadcast: no response *)
   forallb (fun c => if is_bcast (k_cfg k) c then match outs_for k c with [] => true | _ => false end else true)
           (k_reqs k).
